@@ -72,9 +72,14 @@ pub fn compile(
     })
 }
 
+/// Escape user-supplied text for insertion between the double quotes of a Scheme string literal
+pub(crate) fn scheme_escape(raw: &str) -> String {
+    raw.replace('\\', "\\\\").replace('"', "\\\"")
+}
+
 impl CompiledExpression {
     pub fn scheme<S: AsRef<str>>(&self, mdt: S) -> String {
-        let mdt = mdt.as_ref();
+        let mdt = scheme_escape(mdt.as_ref());
         format!(
             "(use-modules (lipe) (lipe find){})
 
